@@ -352,6 +352,7 @@ RULES = [
     ("X-CANON", "util::canonical_path answers with the path resolved by fs::canonicalize (no shortcut for paths that look canonical) [shared]", lambda ctx: __import__("extra2").canonical_path_is_canonical(ctx)),
     ("C20-R6", "ignore patterns are anchored at the directory holding the ignore file", lambda ctx: r6(ctx)),
     ("X-ROOTS", "root options: defaults, per-root binding, options kept when a regexp root is expanded (archives, symlinks, depth window) [shared]", lambda ctx: __import__("extra").root_defaults(ctx)),
+    ("C01-R4", "nested visits (recursion, queue) pass every parameter on in its own position: the ignore switches of a root reach every level [shared with C01]", lambda ctx: __import__("c01").r4(ctx)),
 ]
 
 EXPLANATION = (
